@@ -61,8 +61,10 @@ pub fn project_park(front: &str, backs: &str, streams: &str) -> Vec<Value> {
     for st in streams.split(';').filter(|x| !x.is_empty()) {
         let gid = kvi(st, "gid");
         let link = kvi(st, "link");
-        let win = kvi(st, "win");
+        let fwin = kvi(st, "win");
+        let bwin = kv(st, "bwin").and_then(|v| v.parse::<i64>().ok()).unwrap_or(fwin);
         for dir in 0..2 {
+            let win = if dir == 0 { bwin } else { fwin };
             // dir 0: request, written by the backend endpoint from `front`; dir 1: response, written by the frontend from `back`
             let (ph, blocks, o, _avail) = kawa_of(kv(st, if dir == 0 { "front" } else { "back" }).unwrap_or(""));
             let sendable = (ph.contains('m') || ph.contains('t') || ph.contains('e')) && (blocks > 0 || o > 0);
@@ -76,9 +78,15 @@ pub fn project_park(front: &str, backs: &str, streams: &str) -> Vec<Value> {
             let ev = kvi(ep, "ev");
             let cwin = kvi(ep, "cwin");
             let winblocked = h2 && win.min(cwin) <= 0 && o == 0;
+            let st = kv(ep, "st").unwrap_or("");
+            // an HTTP/2 connection still exchanging SETTINGS (or already closing) writes no stream data
+            let handshake = h2 && matches!(st, "ClientPreface" | "ClientSettings" | "ServerSettings");
+            let closing = h2 && matches!(st, "GoAway" | "Error");
+            // the connection-wide read is parked on a stream without buffer room (open finding HolBlocking)
+            let rparked = h2 && int & READABLE == 0 && kvi(ep, "er") >= 0;
             out.push(json!({"gid": gid, "dir": dir_name(dir as u8), "h2": h2, "wint": int & WRITABLE != 0, "wev": ev & WRITABLE != 0, "rint": int & READABLE != 0,
                 "winblocked": winblocked, "blocks": blocks, "out": o, "win": win, "cwin": cwin, "ep": kvi(ep, "tok"), "front": ftok, "tls": kvi(ep, "tls") != 0,
-                "dead": ev & 12 != 0}));
+                "dead": ev & 12 != 0, "handshake": handshake, "closing": closing, "rparked": rparked, "st": st}));
         }
     }
     out
@@ -109,7 +117,7 @@ pub fn install_park_sink(path: Option<&str>) {
                 let recs = project_park(&front, &backs, &streams);
                 if !recs.is_empty() {
                     // identical projections (up to identities and counts) are written once
-                    let sig: Vec<String> = recs.iter().map(|r| format!("{}{}{}{}{}{}{}", r["dir"], r["h2"], r["wint"], r["wev"], r["rint"], r["winblocked"], r["dead"])).collect();
+                    let sig: Vec<String> = recs.iter().map(|r| format!("{}{}{}{}{}{}{}{}{}{}", r["dir"], r["h2"], r["wint"], r["wev"], r["rint"], r["winblocked"], r["dead"], r["handshake"], r["closing"], r["rparked"])).collect();
                     let h = mix(sig.join("|").bytes().fold(0u64, |a, b| a.wrapping_mul(131).wrapping_add(b as u64)));
                     if p.distinct.insert(h) || p.written < 300 || seq % 97 == 0 {
                         use std::io::Write;
@@ -169,6 +177,8 @@ pub fn park_counts() -> (u64, u64, usize) {
 }
 
 pub struct Rig {
+    /// listeners of the clusters "m1" (HTTP/1.1) and "m2" (h2c) whose backend side is played by the caller itself
+    pub manual: Mutex<Vec<TcpListener>>,
     pub worker: Mutex<Worker>,
     pub http: SocketAddr,
     pub https: SocketAddr,
@@ -314,7 +324,22 @@ impl Rig {
             };
             serve_backend(listener, sh.clone(), h2);
         }
-        Ok(Rig { worker: Mutex::new(w), http, https, sh, buffer_size })
+        let mut manual = Vec::new();
+        for (c, h2) in [("m1", false), ("m2", true)] {
+            let id = format!("c01-{c}");
+            let back = free_addr();
+            let listener = TcpListener::bind(back).map_err(|e| format!("bind backend: {e}"))?;
+            let cl = Cluster { cluster_id: id.clone(), http2: if h2 { Some(true) } else { None }, ..Default::default() };
+            let r1 = w.request(RequestType::AddCluster(cl), t);
+            let r2 = w.request(RequestType::AddHttpFrontend(Worker::http_frontend(&id, http, "localhost", &format!("/{c}/"))), t);
+            let r3 = w.request(RequestType::AddHttpsFrontend(Worker::http_frontend(&id, https, "localhost", &format!("/{c}/"))), t);
+            let r4 = w.request(RequestType::AddBackend(Worker::backend(&id, &format!("{id}-b"), back)), t);
+            if !(ok(&r1) && ok(&r2) && ok(&r3) && ok(&r4)) {
+                return Err(format!("cluster {id} setup failed"));
+            }
+            manual.push(listener);
+        }
+        Ok(Rig { manual: Mutex::new(manual), worker: Mutex::new(w), http, https, sh, buffer_size })
     }
 
     pub fn worker_dead(&self) -> bool {
@@ -395,7 +420,8 @@ impl Rig {
             std::thread::sleep(Duration::from_millis(5));
         }
         self.sh.reg.lock().unwrap().remove(&run);
-        let park = if outcome == Outcome::Stalled { park_of(&local_addr) } else { None };
+        let evs_stalled = self.sh.log.evs.lock().unwrap().iter().any(|e| e.0.run == run && (e.2["k"] == "stall" || e.2["k"] == "sendstall"));
+        let park = if outcome == Outcome::Stalled || evs_stalled { park_of(&local_addr) } else { None };
         let park_hol = park.as_ref().map(|p| p["hol"] == true).unwrap_or(false);
         let budget_kill = budget_hit(&local_addr);
         let evs = self.sh.log.take_run(run);
